@@ -184,7 +184,17 @@ func (x *Exec) modCall(ms *modSet, cc *ssa.CallCommon, visiting map[*ssa.Functio
 				found = true
 			}
 		}
-		_ = found
+		if !found {
+			if c := x.ifaceContract(cc); c != nil {
+				for _, cl := range c.Clauses {
+					if cl.Kind == "modifies" {
+						ms.all = true
+					}
+				}
+			} else if pointerishArgs(cc) {
+				ms.all = true
+			}
+		}
 		return
 	}
 	switch f := cc.Value.(type) {
@@ -249,8 +259,18 @@ func (x *Exec) modCallee(ms *modSet, fn *ssa.Function, cc *ssa.CallCommon, visit
 		eff(x, ms, cc, visiting)
 		return
 	}
+	if x.model(full) != nil {
+		if writesThroughArgs[full] {
+			ms.all = true
+		}
+		return
+	}
 	if fn.Blocks == nil {
-		return // external: assumed not to write tracked memory
+		// external without body: may write the objects it is handed (see havocArgObjects)
+		if pointerishArgs(cc) {
+			ms.all = true
+		}
+		return
 	}
 	x.mergeMod(ms, x.modSetRec(fn, visiting), nil)
 }
@@ -565,4 +585,31 @@ func (x *Exec) autoInvariants(st *State, fr *Frame, li *loopInfo) []func(*State)
 
 func (x *Exec) autoDecreases(st *State, fr *Frame, al *activeLoop) []string {
 	return nil
+}
+
+// library models that write through their (second) argument
+var writesThroughArgs = map[string]bool{
+	"github.com/mitchellh/mapstructure.Decode": true,
+	"encoding/json.Unmarshal":                  true,
+}
+
+// pointerishArgs: does the call hand over an object by pointer, map, slice or interface?
+func pointerishArgs(cc *ssa.CallCommon) bool {
+	for _, a := range cc.Args {
+		switch a.Type().Underlying().(type) {
+		case *types.Pointer, *types.Map, *types.Slice, *types.Interface:
+			if mi, ok := a.(*ssa.MakeInterface); ok {
+				switch mi.X.Type().Underlying().(type) {
+				case *types.Pointer, *types.Map, *types.Slice:
+					return true
+				}
+				continue
+			}
+			if c, ok := a.(*ssa.Const); ok && c.IsNil() {
+				continue
+			}
+			return true
+		}
+	}
+	return false
 }
